@@ -92,6 +92,14 @@ def stack_cases():
                 for k in range(0, len(extras) + 1):
                     for layout in ('stop_beside', 'seam', 'stack_stops'):
                         yield {'kind': 'stack', 'group': g, 'stack': list(stack), 'extras': extras[:k], 'layout': layout}
+        # every other set code of the group (all colours, fonts ...) alone, cleared, and against the first value
+        for c in sorted(str(x) for x, gg in T.SET.items() if gg == g):
+            if c in (a, b):
+                continue
+            for stack in ([c], [c, clear], [a, c], [c, a]):
+                for k in (0, 1):
+                    for layout in ('stop_beside', 'seam', 'stack_stops'):
+                        yield {'kind': 'stack', 'group': g, 'stack': list(stack), 'extras': extras[:k], 'layout': layout}
 
 
 def build_stack_case(case):
@@ -121,7 +129,41 @@ def check_stack_case(case, prop):
         oracles.c03_check_simplify(o, observe(c), c)
 
 
+def member_cases():
+    """C15: 'settings given as AnsiFormat members, their names ... are always valid and parsable' - every member
+    of the enumeration, as the member, by its lower-case name and by its name as written."""
+    for m in lib.AnsiFormat:
+        for form in ('member', 'lower', 'name'):
+            yield {'kind': 'member', 'member': m.name, 'form': form}
+
+
+def check_member_case(case):
+    from .engine import require
+    m = lib.AnsiFormat[case['member']]
+    arg = m if case['form'] == 'member' else (m.name.lower() if case['form'] == 'lower' else m.name)
+    try:
+        for cls in (AnsiString, AnsiStr):
+            v = cls('ab', arg)
+            sets = v.ansi_settings_at(0)
+            require(len(sets) >= 1, 'member.sets_something', member=case['member'], form=case['form'])
+            for s in sets:
+                require(s.valid and s.parsable, 'member.setting_valid_and_parsable', member=case['member'], form=case['form'],
+                        setting=str(s), valid=s.valid, parsable=s.parsable)
+            require(v.is_formatting_valid() and v.is_formatting_parsable(), 'member.formatting_valid_and_parsable',
+                    member=case['member'], form=case['form'])
+    except Fail:
+        raise
+    except Exception as e:
+        raise Fail('member.accepted', member=case['member'], form=case['form'], exc='%s: %s' % (type(e).__name__, e))
+
+
 def replay(doc):
+    if doc['case'].get('kind') == 'member':
+        try:
+            check_member_case(doc['case'])
+        except Fail as f:
+            return Violation(doc['property'], f.predicate, 0, f.detail)
+        return None
     if doc['case'].get('kind') == 'stack':
         try:
             check_stack_case(doc['case'], doc['property'])
@@ -153,6 +195,19 @@ def _write_violation(prop, case, v, out_dir, n, info):
 
 def run_for(prop, tier, out_dir):
     info = {'cases': 0, 'exhaustive_sweep': False, 'probes': {}}
+    if prop == 'C15':
+        n = 0
+        for case in member_cases():
+            n += 1
+            try:
+                check_member_case(case)
+            except Fail as f:
+                return _write_violation(prop, case, Violation(prop, f.predicate, 0, f.detail), out_dir, n, info)
+        info['cases'] = n
+        info['member_sweep_cases'] = n
+        info['exhaustive_sweep'] = True
+        info['probes'] = {'ansiformat_members_x_3_spellings': n}
+        return info
     if prop not in ('C01', 'C03'):
         return info
     lib.AnsiString.WITH_ASSERTIONS = True
